@@ -60,6 +60,9 @@
 #[cfg(folo_verif)]
 #[doc(hidden)]
 pub mod __verif;
+#[cfg(folo_verif)]
+#[path = "../../testing/verif/sync_shim.rs"]
+mod verif_sync;
 mod constants;
 mod join_handle;
 mod metrics;
